@@ -113,3 +113,24 @@ Print Assumptions reg_own_appends.
 Print Assumptions reg_group_inherits.
 Print Assumptions reg_route_chain.
 Print Assumptions reg_routes_keep_their_chain.
+
+(* A request in which any layer — a middleware before or after $next, or the handler — may end in an
+   uncaught throw (Model.server_ops_t): still ONE operation sequence on one bufferedWriter, so the
+   connection sees at most one commit and the client sees the spec of the calls that ran ... *)
+Theorem server_throw_commit_at_most_once : forall mws h ht e, (whCalls (under (serve_t mws h ht e)) <= 1)%nat.
+Proof. intros. apply commit_at_most_once_l. Qed.
+Theorem server_throw_wire_is_spec : forall mws h ht e, client (serve_t mws h ht e) = spec (server_ops_t mws h ht e).
+Proof. intros. apply wire_is_spec_l. Qed.
+(* ... when no middleware throws this is exactly the request of server_ops ... *)
+Theorem server_throw_generalises : forall mws h ht e,
+  server_ops_t (map quiet mws) h ht e = server_ops mws h (if ht then Some e else None).
+Proof. exact server_ops_t_quiet_l. Qed.
+(* ... and a middleware that throws before $next stops the request there: the calls made are those of
+   the layers outside it before $next and its own, nothing of any inner layer, no after-$next call *)
+Theorem throw_before_next_stops_the_chain : forall ls1 l ls2 h ht, Forall quiet_layer ls1 -> l_tpre l = true ->
+  layers_ops (ls1 ++ l :: ls2) h ht = ((List.concat (map l_pre ls1) ++ l_pre l)%list, true).
+Proof. exact layers_ops_tpre. Qed.
+Print Assumptions server_throw_commit_at_most_once.
+Print Assumptions server_throw_wire_is_spec.
+Print Assumptions server_throw_generalises.
+Print Assumptions throw_before_next_stops_the_chain.
